@@ -76,6 +76,24 @@ def float_records(n, seed):
             bad = [float(x) for x, y, z in zip(X0[:, d], Y[:, d], Z[:, d]) if not (0 <= y < 1 and 0 <= z < 1)]
             recs.append(dict(kind='float', center=repr(c), dim=int(d), n_inputs=len(cands), inRange=in_range,
                              roundTrip=bool(worst <= 5e-16), untouched=unt, worst=float(worst), bad_inputs=bad[:4]))
+            # the same for single-precision input arrays (neighbours taken in float32)
+            c32 = []
+            for w in (wf, wi):
+                w32 = np.float32(w)
+                c32 += [np.nextafter(w32, np.float32(0)), w32, np.nextafter(w32, np.float32(1))]
+            c32 += [np.float32(0), np.nextafter(np.float32(1), np.float32(0))]
+            c32 = [v for v in c32 if 0.0 <= float(v) < 1.0]
+            X32 = g.random((len(c32), n_dim)).astype(np.float32)
+            X32[:, d] = np.array(c32, dtype=np.float32)
+            X32_0 = X32.copy()
+            Y32 = ps.transform(X32)
+            Z32 = ps.transform(X32, inverse=True)
+            in32 = bool(np.all((Y32 >= 0) & (Y32 < 1)) and np.all((Z32 >= 0) & (Z32 < 1)))
+            unt32 = bool(np.array_equal(np.asarray(Y32)[:, other], X32_0[:, other]) and np.array_equal(X32, X32_0))
+            bad32 = [float(x) for x, y, z in zip(X32_0[:, d], np.asarray(Y32)[:, d], np.asarray(Z32)[:, d])
+                     if not (0 <= y < 1 and 0 <= z < 1)]
+            recs.append(dict(kind='float', center=repr(c), dim=int(d), n_inputs=len(c32), inRange=in32, roundTrip=True,
+                             untouched=unt32, worst=0.0, bad_inputs=bad32[:4], dtype='float32'))
     return recs
 
 
